@@ -1,5 +1,6 @@
 import GapicModel.Driver.Base
 import GapicModel.Model.Emit
+import GapicModel.Model.NamingOptions
 open Lean GapicModel GapicModel.Regex
 namespace GapicModel.Driver
 
@@ -37,6 +38,28 @@ def opC11Filename (j : Json) : Except String Json := do
   let pr := match j.getObjVal? "proto" with | .ok (Json.str s) => some s.toList | _ => none
   pure (Json.mkObj [("r", jstr ("/".toList.intercalate (getFilename ⟨nm, sub, svc, pr⟩ (parseTemplate t))))])
 
-def opsC11 : List (String × (Json → Except String Json)) := [("c11.renders", opC11Renders), ("c11.filename", opC11Filename)]
+open Model.NamingOptions in
+def opC11Naming (j : Json) : Except String Json := do
+  let pkgs ← strsOf j "pkgs"
+  let root := rootPackage pkgs
+  match build pkgs with
+  | none => pure (Json.mkObj [("root", jstr root), ("match", Json.bool false)])
+  | some i => pure (Json.mkObj [("root", jstr root), ("match", Json.bool true), ("ns", jarr ((nsSegments i).map jstr)),
+                                ("name", jstr i.name), ("version", jstr i.version), ("versioned", jstr (versionedModule i))])
+
+open Model.NamingOptions in
+def opC11Opts (j : Json) : Except String Json := do
+  let flags := Pinned.optFlags.map String.toList
+  let kv := parseOpts flags (← getStrL j "s")
+  let a := answer kv
+  pure (Json.mkObj [("opts", jarr (kv.map fun (k, v) => jarr [jstr k, jstr v])),
+    ("name", jstr a.name), ("namespace", jarr (a.nspace.map jstr)), ("warehouse", jstr a.warehouse),
+    ("autogen", Json.bool a.autogenSnippets), ("lazy", Json.bool a.lazyImport), ("old", Json.bool a.oldNaming),
+    ("iam", Json.bool a.addIam), ("metadata", Json.bool a.metadata), ("transport", jarr (a.transport.map jstr)),
+    ("numeric", Json.bool a.restNumericEnums), ("deps", jarr (a.protoPlusDeps.map jstr)),
+    ("unrecognised", jarr (a.unrecognised.map jstr))])
+
+def opsC11 : List (String × (Json → Except String Json)) := [("c11.renders", opC11Renders), ("c11.filename", opC11Filename),
+  ("c11.naming", opC11Naming), ("c11.opts", opC11Opts)]
 
 end GapicModel.Driver
